@@ -27,6 +27,13 @@ type Scenario struct {
 	// PreemptionBound < 0 means unbounded interleavings with sleep-set reduction;
 	// >= 0 explores every schedule with at most that many preemptions (no reduction).
 	PreemptionBound int
+	// ReadsCommute lets the sleep-set reduction treat two atomic loads of the same cell as
+	// independent (default: any two operations on one cell are dependent).
+	ReadsCommute bool
+	// SilentLoads makes atomic loads no scheduling points of their own (the load executes
+	// together with the thread's previous step). Sound for code whose loads are either
+	// validated by a following compare-and-swap or read a value that never changes again.
+	SilentLoads bool
 	// TickLimit bounds X.Tick calls per execution (0 = default 100000).
 	TickLimit int
 	// StepLimit bounds scheduling points per execution (0 = default 20000).
